@@ -16,19 +16,27 @@ LEVEL_TEXT = ("Theorems in coq/Props/C12.v about the executable model coq/Node/B
               "the annotated results, finishes, and builds exactly the accepted entries in order; the rollback equation "
               "run(pre ++ rejected ++ post) = run(pre ++ post); a bad kind is reported by that call and changes nothing. "
               "For the typed engines (bindnode, generated code; model coq/Node/Typed.v, types Msg3 and {String:Msg3}) the "
-              "repeated-key clause is proved for the repaired setting and refuted for the pinned one. Tied to /repo by running "
+              "repeated-key clause is proved for the repaired setting and refuted for the pinned one. A wider typed family "
+              "(bindnode over inferred Go types: {String:Any}, [Any] with nested containers built through Begin...Finish, "
+              "{String:{String:Int}}, [[String]], structs with every scalar kind, nested struct/list/map, optional and nullable "
+              "fields, typed maps of structs, random types of that family; gendemo where the type exists) is checked against the "
+              "contract directly (no Coq model): legal script => every call ok and the node reads back as the value; every assign "
+              "form a typed position cannot hold (Assign*, BeginMap/List, AssignNode of basicnode nodes of every kind incl. "
+              "UintNode <= and > MaxInt64) => an error from that call, never a panic, assembler still usable. Tied to /repo by running "
               "the same annotated scripts, and all call sequences over a 9-call alphabet up to depth 6 (8 thorough), against the "
               "real assemblers under recover.")
 LEVEL_NOTE = ("Partial: the all-scripts theorem is proved for basicnode only; the typed engines are covered by single-call lemmas, "
               "refutation witnesses and the correspondence run. Calls to stale handles / methods the handle's Go type lacks are "
               "outside the model (ONoMethod) and are not generated. Known findings: see known_findings.d/C12.json.")
 TRUSTED = ["the model of the typed engines (coq/Node/Typed.v) is faithful only on the grammar-with-injections family the harness generates; tied by correspondence",
-           "Go map semantics for plainMap.m: association list read by first match"]
+           "Go map semantics for plainMap.m: association list read by first match",
+           "the typed family (engines tbind:/tgen:) has no Coq model: the driver evaluates the contract on the implementation's observation only"]
 RULE = ("(a) every call sequence over {BeginMap, BeginList, AssembleKey, AssembleValue, AssembleEntry a/b, AssignString a, AssignInt 1, "
         "Finish} on Prototype.Any whose proper prefixes neither panic nor leave the handles, to depth 6; (b) generated values x legal "
         "scripts x one variant per injection point (repeated key in 3 forms, wrong-kind tries at keys, values and typed roots) + "
         "one with all points, on basicnode prototypes and, for Msg3 / {String:Msg3}, the same script on bindnode and gendemo; "
-        "(c) Reset then a second build; distinct = distinct (engine, script); non-trivial = at least 3 calls")
+        "(c) Reset then a second build; (d) the typed family: fixed + random schema types x type-level values x legal scripts "
+        "x refused assign forms at one typed position per variant + a variant with ALL refused forms at ALL positions; distinct = distinct (engine, script); non-trivial = at least 3 calls")
 
 
 def classify(fs):
